@@ -21,9 +21,7 @@ var mapRangeTable = map[string]string{
 	"internal/fingerprint.collectKeys|map[string]bool":                   "keys are sorted before being returned",
 	"taskfile/ast.(*TaskfileGraph).Merge$1|map[string]graph.Edge[string]": "",
 	"taskfile/ast.(*TaskfileGraph).Merge|map[string]graph.Edge[string]":  "each iteration merges the included file into a DISTINCT parent, and merging never writes to the included file (rule merge-sources-read-only)",
-	"taskfile.Dotenv|map[string]string":                                  "first-wins per key across files; keys within one dotenv file are unique",
 	"task.(*Executor).compiledTask|map[string]string":                    "task dotenv: first-wins per key across files; keys within one file are unique",
-	"task.itemsFromFor|map[string]any":                                   "the documented unordered iteration over a map variable in `for:`",
 	"internal/templater.ReplaceWithExtra|map[string]any":                 "",
 	"internal/deepcopy.TraverseStringsFunc$1|[]reflect.Value":            "",
 	"internal/sort.AlphaNumericWithRootTasksFirst|":                      "",
@@ -82,7 +80,16 @@ func c09MapRanges(c *Check, a *Anchors) {
 				return true
 			}
 			if _, isMap := tv.Type.Underlying().(*types.Map); !isMap {
-				return true
+				// ranging over maps.Keys / maps.Values / maps.All of a Go map is the same unordered iteration
+				isMapIter := false
+				if mc, ok := ast.Unparen(r.X).(*ast.CallExpr); ok {
+					if fn, ok := callee(info, mc).(*types.Func); ok && fn.Pkg() != nil && fn.Pkg().Path() == "maps" && (fn.Name() == "Keys" || fn.Name() == "Values" || fn.Name() == "All") {
+						isMapIter = true
+					}
+				}
+				if !isMapIter {
+					return true
+				}
 			}
 			n++
 			c.Fn(fb)
